@@ -314,3 +314,72 @@ func replayLimitCases(t *testing.T) {
 		}
 	}
 }
+
+// TestC14Haul: "at any point of a stream" includes points reached after more
+// than 2^32 bytes have gone through one consumer. The same 8 MiB logs batch
+// (64 records with a 64 KiB body and a 64 KiB attribute; no dictionaries, no
+// compression, so the memory a batch needs is stationary) is sent until the
+// payloads add up to more than 4.6 GiB, under a limit that leaves ample room.
+// Every batch must decode completely, and the in-use figure the consumer
+// publishes must stay within the limit (seeded change C14f: 32-bit running
+// totals in the allocator).
+func TestC14Haul(t *testing.T) {
+	rec := kit.Get("C14")
+	rapid.Check(t, func(t *rapid.T) {
+		valueLen := rapid.SampledFrom([]int{64 << 10, 48 << 10}).Draw(t, "valuelen")
+		limit := rapid.SampledFrom([]uint64{64 << 20, 70 << 20, 40 << 20}).Draw(t, "limit")
+		f := false
+		o := Options{Dict: "none", Zstd: &f}
+		hb := Batch{Signal: Logs, Synth: fmt.Sprintf("haul14/%d", valueLen)}
+		in, err := hb.Decode()
+		if err != nil {
+			t.Fatalf("harness: %v", err)
+		}
+		want := in.Canon()
+		p := arrow_record.NewProducerWithOptions(o.Build()...)
+		prov := &recordingProvider{}
+		cons := arrow_record.NewConsumer(arrow_record.WithMemoryLimit(limit), arrow_record.WithMeterProvider(prov))
+		defer func() {
+			_ = catch(func() { _ = p.Close() })
+			_ = catch(func() { _ = cons.Close() })
+		}()
+		var sent uint64
+		batches := 0
+		c := &LimitCase{Stream: StreamCase{Options: o}, Limits: []uint64{limit}}
+		for sent < 4600<<20 {
+			c.Stream.Batches = append(c.Stream.Batches, hb)
+			bar, eerr, pn := Encode(p, in)
+			if pn != nil || eerr != nil {
+				t.Fatalf("harness: producer failed on a plain batch: %v %v", eerr, pn)
+			}
+			for _, pl := range bar.ArrowPayloads {
+				sent += uint64(len(pl.Record))
+			}
+			d := Decode(cons, Logs, bar)
+			msg := ""
+			switch {
+			case d.Panic != nil:
+				msg = fmt.Sprintf("consumer panicked: %s", d.Panic)
+			case prov.peak > int64(limit):
+				msg = fmt.Sprintf("arrow_memory_inuse reported %d bytes in use, above the limit", prov.peak)
+			case d.Err != nil:
+				msg = fmt.Sprintf("refused although the same batch decoded %d times before under this limit: %v", batches, d.Err)
+			case d.Items != in.Items():
+				msg = fmt.Sprintf("decoded %d of %d items", d.Items, in.Items())
+			case batches%64 == 0:
+				if diff := canon.Diff(want, d.Canon); diff != "" {
+					msg = "decoded telemetry differs from encoded: " + diff
+				}
+			}
+			if msg != "" {
+				rec.Case(true, fmt.Sprintf("haul14/%d/%d", valueLen, limit), []string{"long_haul_past_4GiB"}, nil)
+				rec.Fail(t, c, "limit %d, batch %d of a stream of identical %d-byte batches, %d MiB sent so far: %s", limit, batches, len(bar.ArrowPayloads[0].Record), sent>>20, msg)
+			}
+			batches++
+		}
+		rec.Label("haul_batches", batches)
+		rec.Case(true, fmt.Sprintf("haul14/%d/%d", valueLen, limit), []string{"long_haul_past_4GiB"}, func() any {
+			return map[string]any{"batches": batches, "payload_MiB_sent": sent >> 20, "limit": limit, "peak_in_use": prov.peak}
+		})
+	})
+}
